@@ -171,6 +171,26 @@ CLAIMED["C17"] = (
     "the root, StaticFiles bodies imply the extension condition, and 200 responses carry exactly the file the model serves.",
     "confinement is largely net/http's; no symlinks; redirects/4xx/5xx unconstrained (safety claim); trusted: TLC, os, net/http", "6 C17")
 
+CLAIMED["C18"] = (
+    "TLA+ spec RuxBind (source decision table by statement vs the code's ordered substring tests; outcome/validator gating) "
+    "model-checked over all methods x media types; struct values enumerated by TLC; every case executed through binding.Auto and "
+    "Context.Bind with Go's own encoders",
+    "9 methods x 9 media types x with/without parameters: the source used is identified by binding a request that carries a "
+    "different value in every potential source; 1248 values of a representative struct (ints, strings with separators of every format "
+    "and non-ASCII, bools, slices) x 5 formats x validator on/off round-trip; every proper prefix of valid JSON/XML encodings must "
+    "be an error and 21 garbage keys x 5 formats must not panic.",
+    "model_checking for the table and gating; codec fidelity is exploration-strength (TLC as enumerator, identity as oracle); "
+    "trusted: TLC, encoding/json, encoding/xml, net/url, mime/multipart", "6 C18")
+CLAIMED["C19"] = (
+    "TLA+ spec RuxRender (helper -> status / Content-Type / body shape; Negotiate = first supported vs the loop of render.Auto) "
+    "model-checked over every case; every case executed on the real helpers with a recorder and the body decoded back in Go",
+    "16 helpers x 7 statuses x preset/absent Content-Type x 8 value classes (plain, HTML, control, non-ASCII strings, nested maps, "
+    "structs, byte slices, an unencodable channel): status, Content-Type (preset kept by the pkg/render based helpers), body decodes "
+    "back to the value (JSONP as cb(...);), encoding failures surface in Context.Errors or the returned error; all Accept lists of "
+    "<=3 entries over 7 media types, in three spellings of the separator.",
+    "model_checking for tables and negotiation; decode-back is exploration-strength; text/html negotiation not constrained; "
+    "trusted: TLC, encoding/json, encoding/xml", "6 C19")
+
 PENDING = {}
 
 
